@@ -191,9 +191,21 @@ def stmts_of(func):
             and n is not func]
 
 
+_single_defs_cache = {}
+
+
 def single_defs(func):
     """name -> value for locals assigned exactly once by a plain
     ``name = value`` (not parameters, not augmented, not loop targets)."""
+    k = id(func)
+    if k in _single_defs_cache and _single_defs_cache[k][0] is func:
+        return _single_defs_cache[k][1]
+    res = _single_defs(func)
+    _single_defs_cache[k] = (func, res)
+    return res
+
+
+def _single_defs(func):
     counts = {}
     vals = {}
     params = set(params_of(func)) if hasattr(func, 'args') else set()
@@ -284,4 +296,11 @@ def expand_fact_texts(func, facts):
                     break
                 cur = subst(cur, {k: defs[k] for k in used})
             out.add((unparse(cur), pol))
+            # a hoisted conjunction / negation yields its atoms
+            from .cfg import decompose, fact_key
+            try:
+                for (x, p_) in decompose(cur, pol):
+                    out.add(fact_key(x, p_))
+            except Exception:  # noqa
+                pass
     return out
